@@ -115,6 +115,88 @@ func resplit(r *gen.Rand, a Cmd) Cmd {
 	return b
 }
 
+// keyRepeat: two distinct commands of the same shape whose arguments repeat the key token (at any
+// argument position, possibly several times, also in the tokens in front of a script's key) and that
+// differ only in the order or the number of those repetitions.  An identity that skips the key by
+// value instead of by position makes them collide; they are outside the concat-collision class
+// whenever the concatenations of the non-key tokens differ.
+func keyRepeat(r *gen.Rand) (Cmd, Cmd) {
+	key := []byte(gen.Pick(r, []string{"1", "k", "kk", "0", "ab", "2"}))
+	if r.Chance(1, 4) {
+		key = r.Bytes(r.Range(1, 3))
+	}
+	other := func() []byte {
+		for {
+			t := []byte(gen.Pick(r, []string{"2", "f", "x", "10", "-1", "g", "1", "k"}))
+			if string(t) != string(key) {
+				return t
+			}
+		}
+	}
+	// arguments after the key: a mix of copies of the key and other tokens
+	n := r.Range(2, 5)
+	args := make([][]byte, n)
+	nk := 0
+	for i := range args {
+		if r.Chance(1, 2) {
+			args[i] = key
+			nk++
+		} else {
+			args[i] = other()
+		}
+	}
+	if nk == 0 {
+		args[r.Intn(n)] = key
+	}
+	if nk == n {
+		args[r.Intn(n)] = other()
+	}
+	var head [][]byte
+	scr := r.Chance(1, 4)
+	if scr {
+		sha := []byte(gen.Pick(r, []string{"sha", "1", "k"}))
+		if r.Chance(1, 3) {
+			sha = key // the script token itself equals the key
+		}
+		head = [][]byte{[]byte(gen.Pick(r, []string{"EVALSHA_RO", "EVAL_RO", "FCALL_RO"})), sha, []byte("1"), key}
+	} else {
+		head = [][]byte{[]byte(gen.Pick(r, []string{"LRANGE", "HMGET", "GETRANGE", "ZRANGE", "BITCOUNT", "JSON.GET", "MGET", "JSON.MGET", "HGET", "SMISMEMBER"})), key}
+	}
+	build := func(as [][]byte) Cmd {
+		c := Cmd{Scr: scr}
+		c.S = append(c.S, head...)
+		c.S = append(c.S, as...)
+		return c
+	}
+	a := build(args)
+	var bargs [][]byte
+	switch r.Intn(4) {
+	case 0: // rotate: same multiset, different order
+		bargs = append(append([][]byte{}, args[1:]...), args[0])
+	case 1: // swap a key copy with a neighbouring other token
+		bargs = append([][]byte{}, args...)
+		for i := 0; i+1 < len(bargs); i++ {
+			if (string(bargs[i]) == string(key)) != (string(bargs[i+1]) == string(key)) {
+				bargs[i], bargs[i+1] = bargs[i+1], bargs[i]
+				break
+			}
+		}
+	case 2: // drop one copy of the key
+		dropped := false
+		for _, t := range args {
+			if !dropped && string(t) == string(key) {
+				dropped = true
+				continue
+			}
+			bargs = append(bargs, t)
+		}
+	default: // one more copy of the key at a random position
+		p := r.Intn(len(args) + 1)
+		bargs = append(append(append([][]byte{}, args[:p]...), key), args[p:]...)
+	}
+	return a, build(bargs)
+}
+
 func genCase(r *gen.Rand, i int) any {
 	r = lruh.Reseed(r)
 	switch x := r.Intn(20); {
@@ -135,6 +217,10 @@ func genCase(r *gen.Rand, i int) any {
 		a = genCmd(r)
 	}
 	var b Cmd
+	if r.Chance(1, 3) {
+		a, b = keyRepeat(r)
+		return &Case{Kind: "pair", A: a, B: &b}
+	}
 	switch r.Intn(8) {
 	case 0, 1, 2: // same name and key, arguments split differently
 		if len(a.S) < 4 && !a.Scr {
